@@ -124,7 +124,7 @@ def doc(desc, original, s):
         edits = [i for i in idx if s[i] != original[i]]
         return dict(score=desc.get("max_edits", 0) - len(edits), breach=set(edits), region=True)
     if k in ("change", "change_idx", "change_min", "change_obj"):
-        if k == "change_idx":
+        if k == "change_idx" or desc.get("indices") is not None:
             idx = list(desc["indices"])
         else:
             a, b, _ = loc_of(desc, n)
